@@ -9,10 +9,18 @@ LIFE = dict(unit="vgp_life_u.c", file="hdf/src/vgp.c", objbits=10, trusted=LTR)
 
 # ---- single calls (contracts)
 ABS = ["strlen/strcpy on the two names of the group: true lengths g_nlen/g_clen, destination size checked, content arbitrary (A-STRLEN)"]
-VD = dict(entry="h_Vdetach", enforce="Vdetach", loops=True, nloops=3, loopcls="A", cex_unwind=6, unit="vgp_life_u.c",
-          file="hdf/src/vgp.c", objbits=10, trusted=LTR + ABS)
+# Vdetach for groups of ANY size: its only loops are those of vpackvg, which is replaced by its contract (position bookkeeping:
+# record length, record fits the buffer of the size Vdetach computes).  cbmc cannot close vpackvg's loops with loop contracts
+# (the write pointer bb is havocked by the loop rule and every write through it becomes an update of all objects: out of memory,
+# probed), so that contract is only CHECKED BOUNDED (vpackvg_size) -- an assumption edge, not a proved dependency.
+VPK = ["ASSUMED: vpackvg contract (*size == record length of the format, writes stay inside a buffer of Vdetach's size) for groups "
+       "of any size -- checked only for <= 3 members / <= 2 attributes / names <= 2 chars by obligation vpackvg_size and by vg_roundtrip_*"]
+VD = dict(entry="h_Vdetach", enforce="Vdetach", replace=["vpackvg"], cex_unwind=6, unit="vgp_life_u.c",
+          file="hdf/src/vgp.c", objbits=10, trusted=LTR + ABS + VPK)
 ob("Vdetach_life", ["C08", "C13"], defines=["LIFE_ABS_STR"], **VD)
 ob("Vdetach_c16", ["C16"], defines=["LIFE_ABS_STR", "LIFE_C16"], **VD)
+ob("vpackvg_size", ["C08"], entry="h_vpackvg", enforce="vpackvg", mode="bounded", defines=["LV_SMALL"], unwind=5, cex_unwind=6,
+   bound="<= 3 members (msize <= 4), <= 2 attributes, names absent or <= 2 characters", timeout=900, **LIFE)
 ob("Vattach_life", ["C08", "C13", "C14"], entry="h_Vattach", enforce="Vattach", cex_unwind=4, **LIFE)
 
 # ---- bounded histories (harness-level sequences over the real Vattach/Vdetach/vpackvg)
